@@ -52,6 +52,21 @@ theorem C05_percons (periods : List Rat) (hn : 0 < periods.length) (hpos : ∀ p
                         (min (periods.getD (c + 1) 0) (periods.getD c 0) / max (periods.getD (c + 1) 0) (periods.getD c 0)))) :=
   periodConsistency_spec periods hn hpos
 
+/-- ... and the one-sided variants (`direction='next'` / `'last'`, the values edge recomputation writes): the ratio with the following / the preceding period only. -/
+theorem C05_percons_dir (periods : List Rat) (hn : 0 < periods.length) (hpos : ∀ p ∈ periods, 0 < p) :
+    periodConsistency .next periods =
+      .ok ((List.range periods.length).map fun c =>
+        if c = 0 ∨ c + 1 = periods.length then F.nan
+        else F.fin (min (periods.getD (c + 1) 0) (periods.getD c 0) / max (periods.getD (c + 1) 0) (periods.getD c 0))) ∧
+    periodConsistency .last periods =
+      .ok ((List.range periods.length).map fun c =>
+        if c = 0 ∨ c + 1 = periods.length then F.nan
+        else F.fin (min (periods.getD c 0) (periods.getD (c - 1) 0) / max (periods.getD c 0) (periods.getD (c - 1) 0))) :=
+  periodConsistency_dir_spec periods hn hpos
+
+example : periodConsistency .next [4, 2, 8, 8] = .ok [.nan, .fin (1/4), .fin 1, .nan] ∧ periodConsistency .last [4, 2, 8, 8] = .ok [.nan, .fin (1/2), .fin (1/4), .nan] := by
+  decide +kernel
+
 theorem C05_ratio_range (a b : Rat) (ha : 0 < a) (hb : 0 < b) : 0 < min a b / max a b ∧ min a b / max a b ≤ 1 :=
   ratio_pos_range a b ha hb
 
